@@ -32,7 +32,9 @@ SHIM = ['c04_heap.c']
 SWITCH = '_ZN6photon14switch_contextEPNS_6threadES1_'
 UPD = '_ZN6photonL10update_nowEv'
 SCHED_CLANG = ['-fno-access-control', '-mllvm', '-force-attribute=%s:noinline' % SWITCH, '-mllvm', '-force-attribute=%s:noinline' % UPD]
-SCHED_IR2C = ['--asm', 'rdtsc=verif_rdtsc', '--map', '^@%s$=verif_update_now' % UPD, '--map', '^@%s$=verif_switch' % SWITCH]
+# NullEventEngine (the vCPU's default engine; std::mutex / condition_variable inside) is never installed here: the harness installs its own recording
+# engine, the translator's virtual-call dispatch still lists NullEventEngine's overrides as candidates -> empty bodies
+SCHED_IR2C = ['--nop', '^@_ZN6photon15NullEventEngine', '--asm', 'rdtsc=verif_rdtsc', '--map', '^@%s$=verif_update_now' % UPD, '--map', '^@%s$=verif_switch' % SWITCH]
 POP = 'f__ZN6photon10SleepQueue3popEPNS_6threadE'
 POPF = 'f__ZN6photon10SleepQueue9pop_frontEv'
 PUSH = 'f__ZN6photon10SleepQueue4pushEPNS_6threadE'
